@@ -1206,10 +1206,8 @@ class Interp:
             return Opaque("repr")
         if name == "type":
             v = args[0]
-            if isinstance(v, Node):
-                c = self.cell(v)
-                if len(self.kinds_of(c)) == 1:
-                    return Cls(self.prog.cls(next(iter(c.kinds))))
+            if isinstance(v, (Node, Rec)):
+                return self.getattr_(v, "__class__")
             return Opaque("type")
         if name == "list":
             if not args:
@@ -1644,6 +1642,8 @@ class Interp:
             if not self.truth(self.eval(st.test, env), "assert"):
                 raise AbsRaise("AssertionError", self.site, unparse(st.test))
         elif isinstance(st, ast.Raise):
+            if st.exc is None and getattr(self, "_current_exc", None) is not None:
+                raise self._current_exc
             raise AbsRaise(self._exc_name(st.exc, env), self.site, unparse(st.exc) if st.exc else "")
         elif isinstance(st, ast.FunctionDef):
             env.vars[st.name] = Fn(FuncInfo(env.module, st, None), env)
@@ -1694,6 +1694,14 @@ class Interp:
         elif isinstance(st, (ast.Import, ast.ImportFrom)):
             for a in st.names:
                 env.vars[a.asname or a.name.split(".")[0]] = Ext(a.name if isinstance(st, ast.Import) else f"{st.module}.{a.name}")
+        elif isinstance(st, ast.Try):
+            self._exec_try(st, env)
+        elif isinstance(st, ast.With):
+            for item in st.items:
+                v = self.eval(item.context_expr, env)
+                if item.optional_vars is not None:
+                    self.assign(item.optional_vars, v, env)
+            self.exec_block(st.body, env)
         elif isinstance(st, ast.Delete):
             for t in st.targets:
                 if isinstance(t, ast.Attribute):
@@ -1708,6 +1716,62 @@ class Interp:
                 raise Unsupported(f"del at {self.site}")
         else:
             raise Unsupported(f"statement {type(st).__name__} at {self.site}")
+
+    _EXC_PARENTS = {"ZeroDivisionError": "ArithmeticError", "OverflowError": "ArithmeticError",
+                    "FloatingPointError": "ArithmeticError", "ArithmeticError": "Exception",
+                    "KeyError": "LookupError", "IndexError": "LookupError", "LookupError": "Exception",
+                    "ValueError": "Exception", "TypeError": "Exception", "AttributeError": "Exception",
+                    "AssertionError": "Exception", "NameError": "Exception", "RuntimeError": "Exception",
+                    "RecursionError": "RuntimeError", "NotImplementedError": "RuntimeError",
+                    "EnvironmentError": "Exception", "OSError": "Exception", "StopIteration": "Exception",
+                    "UnicodeError": "ValueError"}
+
+    def _exc_matches(self, raised: str, handler: str) -> bool:
+        seen = set()
+        cur: Optional[str] = raised
+        while cur is not None and cur not in seen:
+            if cur == handler or handler in ("Exception", "BaseException"):
+                return True
+            seen.add(cur)
+            if cur in self.prog.classes:
+                c = self.prog.classes[cur]
+                cur = c.base_names[0] if c.base_names else None
+            else:
+                cur = self._EXC_PARENTS.get(cur)
+        return False
+
+    def _exec_try(self, st: ast.Try, env: Env) -> None:
+        try:
+            try:
+                self.exec_block(st.body, env)
+            except AbsRaise as r:
+                handled = False
+                for h in st.handlers:
+                    names: List[str] = []
+                    if h.type is None:
+                        names = ["BaseException"]
+                    elif isinstance(h.type, ast.Tuple):
+                        names = [self._exc_name(x, env) for x in h.type.elts]
+                    else:
+                        names = [self._exc_name(h.type, env)]
+                    if any(self._exc_matches(r.exc, n) for n in names):
+                        handled = True
+                        if h.name:
+                            env.assign(h.name, Opaque(f"exception:{r.exc}"))
+                        saved = getattr(self, "_current_exc", None)
+                        self._current_exc = r
+                        try:
+                            self.exec_block(h.body, env)
+                        finally:
+                            self._current_exc = saved
+                        break
+                if not handled:
+                    raise
+            else:
+                self.exec_block(st.orelse, env)
+        finally:
+            if st.finalbody:
+                self.exec_block(st.finalbody, env)
 
     def _exc_name(self, e: Optional[ast.expr], env: Env) -> str:
         if e is None:
@@ -1925,6 +1989,13 @@ class Interp:
         if isinstance(op, ast.Mod) and isinstance(a, str):
             return Opaque("%-format")
         ta, tb = self.to_term(a), self.to_term(b)
+        if ta is not None and tb is not None and isinstance(op, (ast.Div, ast.FloorDiv, ast.Mod)) \
+                and self.config.get("model_zero_division", True):
+            if self.sign_query(tb, frozenset(["zero"]), f"{A.term_str(tb)}==0 (divisor)"):
+                # plain Python numbers raise; a numpy scalar operand (result of np.power / np.absolute) gives inf or nan
+                if self.atom(f"plain-python-numbers({A.term_str(ta)},{A.term_str(tb)})"):
+                    raise AbsRaise("ZeroDivisionError", self.site, "division by zero")
+                return Num(("atom", "nonfinite:inf-or-nan(numpy scalar division)"))
         if ta is not None and tb is not None:
             k = {ast.Add: "add", ast.Sub: "sub", ast.Mult: "mul", ast.Div: "div", ast.Pow: "pow"}.get(type(op))
             if k is not None:
